@@ -45,10 +45,10 @@ struct Sink
             sched::yield(); // in the middle of a conversion: its remaining characters are still in the engine
     }
 };
-static Sink *g_fd_sink[2]; // descriptor 10 + thread id
+static Sink *g_fd_sink[2]; // descriptor = thread id: 0 and 1 are as valid as any other
 int igc_fdputc(int c, int fd)
 {
-    g_fd_sink[fd - 10]->put(c);
+    g_fd_sink[fd]->put(c);
     return 1;
 }
 static void sink_cb(void *d, int c) { ((Sink *)d)->put(c); }
@@ -148,7 +148,7 @@ struct Side
             break;
         default:
             g_fd_sink[id] = s;
-            ret[k] = fire(fmt[k], [&](const char *f, auto... a) { return igc_fdprintf(10 + id, f, a...); });
+            ret[k] = fire(fmt[k], [&](const char *f, auto... a) { return igc_fdprintf(id, f, a...); });
             break;
         }
     }
